@@ -67,11 +67,14 @@ def gen(rnd, swb, cwb, snct, cnct):
     stream = b""
     expected = []
     ztape = []
+    # some peers flush with a BFINAL block (RFC 7692 7.2.3.4) now and then
+    pfinal = rnd.choice([0, 0, 0, 0.3, 0.6])
     for kind, p, comp in server_msgs:
         op = 1 if kind == "text" else 2
         if comp:
-            z = peer.compress(p)
-            ztape.append(p)
+            final = rnd.random() < pfinal
+            z = peer.compress(p, final=final)
+            ztape.append((p, True) if final else p)
             nfr = rnd.choice([1, 1, 2, 3]) if len(z) < 200 else rnd.choice([1, 2, 3])
             if len(z) <= 12 and rnd.random() < 0.3:
                 nfr = len(z) + 1   # one byte per frame (+ an empty one)
@@ -111,6 +114,7 @@ def gen(rnd, swb, cwb, snct, cnct):
     sc["_expect"] = expected
     sc["_sends"] = sends
     sc["_params"] = (swb, cwb, snct, cnct)
+    sc["_bfinal"] = sum(1 for z in ztape if isinstance(z, tuple))
     return sc
 
 
@@ -268,8 +272,9 @@ def run(rep, info, model, tier, seed):
     for sc in scs:
         rep.count("server_msgs", min(len(sc["_expect"]), 12))
         rep.count("client_sends", len(sc["_sends"]))
+        rep.count("bfinal_flushed_messages", min(sc["_bfinal"], 3))
     fam.run_family(rep, model, "C06:histories-x-256-configurations", scs, oracle, project=lambda t: [it for it in t if it[0] != 10],
-                   rule="all 256 (server_max_window_bits, client_max_window_bits, server_no_context_takeover, client_no_context_takeover) x %d message histories: 1-12 server messages (compressed by an independent RFC 7692 peer, fragmented anywhere incl. one byte per frame, pings between fragments, mixed with uncompressed messages and pongs; payloads with repeats just inside/outside the negotiated window across message boundaries, empty, incompressible) and 0-6 client sends with per-message compress flag; the peer inflates client frames in wire order; zlib calls (context epoch, inputs) are compared with the model" % per)
+                   rule="all 256 (server_max_window_bits, client_max_window_bits, server_no_context_takeover, client_no_context_takeover) x %d message histories: 1-12 server messages (compressed by an independent RFC 7692 peer, fragmented anywhere incl. one byte per frame, flushed with an empty stored block or -- some peers, now and then -- with a BFINAL block (RFC 7692 7.2.3.4), pings between fragments, mixed with uncompressed messages and pongs; payloads with repeats just inside/outside the negotiated window across message boundaries, empty, incompressible) and 0-6 client sends with per-message compress flag; the peer inflates client frames in wire order; zlib calls (context epoch, inputs) are compared with the model" % per)
     nn = no_negotiation_family(rnd, 100 if tier == "quick" else 1000)
     fam.run_family(rep, model, "C06:no-negotiation", nn, no_neg_oracle, project=fam.no_waits, rule="no extension in the reply (with and without the offer): RSV1 must never be set")
     cf = corrupt_family(rnd, 150 if tier == "quick" else 3000)
